@@ -347,6 +347,39 @@ func c20(r *core.Run) {
 				}
 				r.Fail("bootstrap-picked-non-enabled", id, "bootstrap returned key version %q, which is %s in the service (population %d, paging policy %d)", short(name), st, nv, k.Paging)
 			}
+			// the same long-lived Manager goes on: the version is destroyed (by a wipeout, or on its
+			// own as a rotation does), and the operator bootstraps again over the key that is left
+			if !fired() && r.Chance(35, "rebootstrap-after-destroy?") {
+				k.FailAt, k.HangGets = -1, 0
+				var derr error
+				how := "wipeout"
+				if r.Bool("destroy-by-wipeout") {
+					derr = m.Wipeout(bctx)
+				} else {
+					how, derr = "destroy", m.DestroyKeyVersion(bctx, name)
+				}
+				if derr == nil {
+					setBound()
+					var name2 string
+					var err2 error
+					if which == 0 {
+						name2, err2 = m.CreateNewRootKey(bctx)
+					} else {
+						name2, err2 = m.CreateFirstSigningKey(bctx)
+					}
+					r.Eventf("bootstrap-key %s again after %s -> ok=%v", id, how, err2 == nil)
+					r.Probe("rebootstrap-after-destroy")
+					if err2 == nil {
+						if v2 := k.version(name2); v2 == nil || v2.StateNow() != kmspb.CryptoKeyVersion_ENABLED {
+							st := "unknown version"
+							if v2 != nil {
+								st = v2.StateNow().String()
+							}
+							r.Fail("bootstrap-picked-non-enabled", id+"/again-after-"+how, "a second bootstrap through the same manager, after %s, returned key version %q, which is %s in the service", how, short(name2), st)
+						}
+					}
+				}
+			}
 		}
 	case 3: // ---------------- rotation: new version ----------------
 		keyName := m.FullKeyName("signing")
